@@ -339,10 +339,10 @@ theorem prefixLen_ed (tau q : Int) (n : Nat) :
       PyV.numVal?]
     by_cases h : (n : Int) < q * tau + 1
     · have h' : ((n : Int) : Rat) < ((q * tau + 1 : Int) : Rat) := by exact_mod_cast h
-      simp only [h', decide_true, if_true, PyV.toIntD]
+      simp only [h', decide_true, if_true, PyV.toInt, PyV.toIntD]
       omega
     · have h' : ¬ ((n : Int) : Rat) < ((q * tau + 1 : Int) : Rat) := by exact_mod_cast h
-      simp only [h', decide_false, Bool.false_eq_true, if_false, PyV.toIntD]
+      simp only [h', decide_false, Bool.false_eq_true, if_false, PyV.toInt, PyV.toIntD]
       omega
 
 /-- with `q·τ ≥ 0` the EDIT_DISTANCE prefix of a list is its first `q·τ + 1` elements -/
